@@ -72,9 +72,7 @@ theorem firstSome_segment {β : Type} (get : FileData → Option β) (pre seg po
     (g : FileData) (h : get g = firstSome get seg) :
     firstSome get (pre ++ g :: post) = firstSome get (pre ++ seg ++ post) := by
   rw [firstSome_append, List.append_assoc, firstSome_append, firstSome_append, firstSome_cons, h]
-  cases firstSome get pre with
-  | some x => rfl
-  | none => cases firstSome get seg <;> rfl
+  all_goals (cases firstSome get pre <;> cases firstSome get seg <;> rfl)
 
 theorem status_segment (x : Nat) (pre seg post : List FileData) (g : FileData)
     (h : status x [g] = status x seg) :
@@ -83,7 +81,8 @@ theorem status_segment (x : Nat) (pre seg post : List FileData) (g : FileData)
   apply firstSome_segment
   rw [← h]
   simp only [firstSome]
-  split <;> simp_all
+  generalize (if x ∈ g.sset then some true else if x ∈ g.tomb then some false else none) = o
+  cases o <;> rfl
 
 /-- a segment that excludes the active log may be replaced by a file that stands for it. -/
 theorem pinv_replace {exc : String → Prop} {sf : SFile} {live : List Nat} {i : Nat} {p : Partition}
